@@ -10,9 +10,14 @@
 //
 // phase hs   : layer 2 — real handshakes (hs.go).
 //
-// phase rx   : layer 3 — genuine records with one rewritten header field fed to the real receive
+// phase rx   : layer 3 — genuine records with one rewritten header field, and Lean-sealed CBC
 //
-//	paths (Read / ReadFrom) of a live connection (rx.go).
+//	records with long (legal or damaged) padding, fed to the real receive paths
+//	(Read / ReadFrom) of a live connection (rx.go).
+//
+// phase wf   : a transport write that fails after part of a protected record went out, followed by
+//
+//	another protected record (close_notify / alert) on the same connection (wf.go).
 package main
 
 import (
@@ -57,6 +62,10 @@ func execute(desc string) (obs string) {
 	}
 	if op == "rx" {
 		_, obs := executeRXFull(desc)
+		return obs
+	}
+	if op == "wf" {
+		_, obs := executeWFFull(desc)
 		return obs
 	}
 	stack, _ := hx.KV(desc, "stack")
@@ -398,8 +407,18 @@ func (g *gen) decCase(st string, tl bool, id uint16, base string, key, iv, mac [
 	} else {
 		nonce = g.r.Bytes(16)
 	}
+	// CBC: the standard lets a sender pad up to 255 bytes; a quarter of the CBC records carry long
+	// padding — well-formed, or with damaged bytes anywhere in it (also farther than one block from
+	// the end), or with a padding_length that claims more bytes than were appended
+	padHow := ""
 	if g.sl != nil {
-		rec = g.sl.seal(fmt.Sprintf("%s typ=%d ver=257 nonce=%s payload=%s", base, typ, hx.Hex(nonce), hx.Hex(p)))
+		req := fmt.Sprintf("%s typ=%d ver=257 nonce=%s payload=%s", base, typ, hx.Hex(nonce), hx.Hex(p))
+		if !isGCM(id) && g.r.Intn(4) == 0 {
+			var tail []byte
+			tail, padHow = g.padTail(len(p))
+			req += " tail=" + hx.Hex(tail)
+		}
+		rec = g.sl.seal(req)
 	}
 	origin := "lean"
 	if rec == nil { // no Lean sender available: let the real code seal it
@@ -416,7 +435,11 @@ func (g *gen) decCase(st string, tl bool, id uint16, base string, key, iv, mac [
 	}
 	rseq := seq
 	how := "none"
-	switch g.r.Intn(12) {
+	sel := g.r.Intn(12)
+	if padHow != "" { // one variation at a time
+		how, sel = padHow, 99
+	}
+	switch sel {
 	case 0: // another type in the header
 		rec[0] ^= byte(1 + g.r.Intn(3))
 		how = "type"
@@ -465,6 +488,43 @@ func (g *gen) decCase(st string, tl bool, id uint16, base string, key, iv, mac [
 	}
 	g.emit(fmt.Sprintf("op=dec stack=%s suite=%d key=%s iv=%s mac=%s epoch=%d seq=%d rec=%s origin=%s tamper=%s",
 		st, id, hx.Hex(key), hx.Hex(iv), hx.Hex(mac), epoch, rseq, hx.Hex(rec), origin, how))
+}
+
+// padTail returns the bytes that follow content ‖ MAC of a CBC record with LONG padding for n
+// bytes of content (HMAC-SM3: 32 bytes): padding_length p = minimal + 16k, k >= 1, p <= 255.
+func (g *gen) padTail(n int) (tail []byte, how string) {
+	p0 := 15 - (n+32)%16
+	kmax := (255 - p0) / 16
+	k := 1 + g.r.Intn(kmax)
+	if g.r.Intn(3) == 0 {
+		k = kmax
+	}
+	p := p0 + 16*k
+	return padVariant(g.r, p, g.r.Intn(5))
+}
+
+// padVariant builds p+1 bytes of padding of value p and damages them according to kind.
+func padVariant(r *hx.Rand, p, kind int) (tail []byte, how string) {
+	tail = bytes.Repeat([]byte{byte(p)}, p+1)
+	flip := func(i int) { tail[i] ^= byte(1 + r.Intn(255)) }
+	switch kind {
+	case 0, 1:
+		return tail, "longpad" // legal
+	case 2: // one byte farther than one block from the end
+		flip(r.Intn(p + 1 - 16))
+		return tail, "padbytefar"
+	case 3: // one to three bytes anywhere in the padding (not the length byte)
+		for j := 1 + r.Intn(3); j > 0; j-- {
+			flip(r.Intn(p))
+		}
+		return tail, "padbyte"
+	default: // padding_length claims 16 more bytes than there are
+		if p+16 > 255 {
+			flip(0)
+			return tail, "padbytefirst"
+		}
+		return bytes.Repeat([]byte{byte(p + 16)}, p+1), "padshort"
+	}
 }
 
 func seqBytes(tl bool, epoch int, seq uint64) []byte {
@@ -530,6 +590,31 @@ func primCases(o hx.Opts, emit func(string), oracle string) {
 		}
 	}
 
+	// long CBC padding through the real decrypt of both stacks: 3 bytes of content + 32 of MAC take
+	// 12 + 16k bytes of padding; the largest (252), one in the middle, each well-formed and with one
+	// byte damaged at the far end, in the middle and next to the length byte
+	if g.sl != nil {
+		for _, st := range []string{"tlcp", "dtlcp"} {
+			for _, id := range []uint16{0xe013, 0xe011} {
+				base := fmt.Sprintf("stack=%s suite=%d key=%s iv=%s mac=%s epoch=1 seq=7", st, id, zero16, zero16, zero32)
+				for _, p := range []int{252, 124, 28} {
+					for _, dmg := range []int{-1, 0, p / 2, p - 17, p - 1} {
+						tail := bytes.Repeat([]byte{byte(p)}, p+1)
+						how := "longpad"
+						if dmg >= 0 {
+							tail[dmg] ^= 0x80
+							how = fmt.Sprintf("padbyte@%d", p-dmg) // distance from the end
+						}
+						rec := g.sl.seal(fmt.Sprintf("%s typ=23 ver=257 nonce=%s payload=616263 tail=%s", base, zero16, hx.Hex(tail)))
+						if rec != nil {
+							emit(fmt.Sprintf("op=dec %s rec=%s origin=lean tamper=%s", base, hx.Hex(rec), how))
+						}
+					}
+				}
+			}
+		}
+	}
+
 	// 2. random
 	nSched, nSmall, nBig := 600, 1200, 120
 	if o.Tier == "thorough" {
@@ -546,17 +631,26 @@ func primCases(o hx.Opts, emit func(string), oracle string) {
 	}
 }
 
+// oraclePath: oracle_c04, whose `seal` mode is the Lean-side sender (phases prim, rx, wf)
+var oraclePath string
+
 func main() {
 	oracle := flag.String("oracle", "", "path of oracle_c04 (its `seal` mode is the Lean-side sender)")
 	o := hx.ParseOpts()
+	oraclePath = *oracle
 	tr := hx.NewTrace(o.Out)
 	defer tr.Close()
 	emit := func(desc string) {
-		if op, _ := hx.KV(desc, "op"); op == "hs" || op == "rx" {
+		if op, _ := hx.KV(desc, "op"); op == "hs" || op == "rx" || op == "wf" {
 			cfg := configPart(desc)
-			captured, obs := executeHSFull(cfg)
-			if op == "rx" {
+			var captured, obs string
+			switch op {
+			case "rx":
 				captured, obs = executeRXFull(cfg)
+			case "wf":
+				captured, obs = executeWFFull(cfg)
+			default:
+				captured, obs = executeHSFull(cfg)
 			}
 			if captured != "" {
 				cfg += " " + captured
@@ -578,6 +672,8 @@ func main() {
 		hsCases(o, emit)
 	case "rx":
 		rxCases(o, emit)
+	case "wf":
+		wfCases(o, emit)
 	default:
 		primCases(o, emit, *oracle)
 	}
